@@ -525,6 +525,13 @@ func runHistory(rng *rand.Rand, prof histProfile, w *Writer, suite string) {
 			if 13+len(fopts)+plen > 255 { // a LoRa PHY payload is at most 255 bytes
 				plen = 255 - 13 - len(fopts)
 			}
+			oversize := false
+			if prof.name == "C11" && rng.Intn(12) == 0 {
+				// ... on the air; a gateway's datagram can report any length: frames around and beyond the limit, for a
+				// known address, with a good or a bad MIC
+				plen = []int{243, 246, 247, 250, 287, 300, 1000}[rng.Intn(7)] - len(fopts)
+				oversize = true
+			}
 			payload := randBytes(rng, plen)
 			if rng.Intn(20) == 0 {
 				port = -1
@@ -532,6 +539,14 @@ func runHistory(rng *rand.Rand, prof histProfile, w *Writer, suite string) {
 			}
 			f := h.validUplink(d, confirmed, ackFlag, fcnt, port, payload, fopts)
 			tag := "uplink.valid"
+			if oversize {
+				// beyond 255 bytes the specification's MIC (one length octet in B0) is not defined: such frames are sent
+				// with a MIC that is wrong under every reading
+				f[len(f)-1] ^= 0x55
+				f[len(f)-3] ^= 0xaa
+				h.rx(f, "corrupt.oversize")
+				continue
+			}
 			if isCorrupt {
 				switch rng.Intn(4) {
 				case 0: // MIC under another key
